@@ -207,11 +207,12 @@ def stepEvs (workers : List Nat) (g : Bool) (comp : Option Nat) (guard : String)
 `handle_cmd`, in the order and under the guard read from server.rs on this run, produce exactly the
 events of the model (for the order `srcWakeFirst` found in the source — either order of the first
 two steps is accepted); the command loop still leaves on `stopping`; `ServerHandle::stop` still
-sends its command before building the future. -/
+sends its command before building the future; and the `None` arm of the worker's `Available` loop
+looks at the `Stop` channel again instead of ending the worker (F8, `Worker.closedArm`). -/
 theorem source_shape (workers : List Nat) (g : Bool) (comp : Option Nat) :
     stopEvs srcWakeFirst workers g comp = Src.hcStopOrder.flatMap (stepEvs workers g comp Src.hcAwaitGuard) ∧
-    Src.srRunBreaksOnStopping = true ∧ Src.hsStopSendsEagerly = true := by
-  refine ⟨?_, rfl, rfl⟩
+    Src.srRunBreaksOnStopping = true ∧ Src.hsStopSendsEagerly = true ∧ Src.wkNoneArmPollsStop = true := by
+  refine ⟨?_, rfl, rfl, rfl⟩
   first
     | (have hw : srcWakeFirst = true := by decide
        rw [hw]; simp [stopEvs, stepEvs, Src.hcStopOrder, Src.hcAwaitGuard, List.flatMap])
